@@ -224,7 +224,7 @@ impl TxInfoV1 {
         }
 
         let inputs = get_tx_in_info_v1(&tx.transaction_body.inputs, utxos)?;
-        let certificates = get_certificates_info(&tx.transaction_body.certificates);
+        let certificates = get_legacy_certificates_info(&tx.transaction_body.certificates)?;
         let withdrawals =
             KeyValuePairs::from(get_withdrawals_info(&tx.transaction_body.withdrawals));
         let mint = get_mint_info(&tx.transaction_body.mint);
@@ -273,7 +273,7 @@ impl TxInfoV2 {
         slot_config: &SlotConfig,
     ) -> Result<TxInfo, Error> {
         let inputs = get_tx_in_info_v2(&tx.transaction_body.inputs, utxos)?;
-        let certificates = get_certificates_info(&tx.transaction_body.certificates);
+        let certificates = get_legacy_certificates_info(&tx.transaction_body.certificates)?;
         let withdrawals =
             KeyValuePairs::from(get_withdrawals_info(&tx.transaction_body.withdrawals));
         let mint = get_mint_info(&tx.transaction_body.mint);
@@ -624,6 +624,29 @@ pub fn get_treasury_donation_info(amount: &Option<PositiveCoin>) -> Option<Posit
 
 pub fn get_certificates_info(certificates: &Option<NonEmptySet<Certificate>>) -> Vec<Certificate> {
     certificates.clone().map(|s| s.to_vec()).unwrap_or_default()
+}
+
+/// Certificates of a transaction seen by a PlutusV1/V2 script: only the certificate types that
+/// exist in those script contexts are representable.
+pub fn get_legacy_certificates_info(
+    certificates: &Option<NonEmptySet<Certificate>>,
+) -> Result<Vec<Certificate>, Error> {
+    let certificates = get_certificates_info(certificates);
+
+    for certificate in &certificates {
+        match certificate {
+            Certificate::StakeRegistration(..)
+            | Certificate::Reg(..)
+            | Certificate::StakeDeregistration(..)
+            | Certificate::UnReg(..)
+            | Certificate::StakeDelegation(..)
+            | Certificate::PoolRegistration { .. }
+            | Certificate::PoolRetirement(..) => (),
+            _ => return Err(Error::UnsupportedCertificateInLegacyContext),
+        }
+    }
+
+    Ok(certificates)
 }
 
 pub fn get_proposal_procedures_info(
